@@ -2,6 +2,7 @@ package verifharness
 
 import (
 	"bytes"
+	"encoding/json"
 	"fmt"
 	"math/rand"
 	"os"
@@ -827,6 +828,33 @@ func (w *World) exec(op *Op) (done bool) {
 		}
 	case OpChurn:
 		w.churn(op.N)
+	case OpBulk:
+		if h.closed {
+			return true
+		}
+		c, mc := w.collFor(h, op.C, true)
+		x := uint32(op.Flag)*2654435761 + 12345
+		for i := 0; i < op.N; i++ {
+			x = x*1664525 + 1013904223
+			key := []byte(fmt.Sprintf("bk%05d", (i*7919+op.Flag)%100003))
+			val := bytes.Repeat([]byte{byte('a' + i%26)}, int(x>>8)%9)
+			prio := int32(x>>1) & 0x7fffffff
+			it := w.newItem(key, val, prio)
+			err := c.SetItem(it)
+			w.dropAppRef(h, c, it)
+			if err != nil {
+				w.failf("unexpected-error:SetItem", "bulk load: SetItem(%s) failed: %v", qb(key), err)
+			}
+			if old, had := mc.Items[string(key)]; had && prio < old.Prio {
+				w.lowered[collName(op.C)] = true
+			}
+			mc.Items[string(key)] = MItem{Val: val, Prio: prio}
+		}
+		w.ev["bulk_load"]++
+		w.ev["mut"]++
+		w.noteMut(op.C)
+	case OpMisc:
+		return w.execMisc(op)
 	default:
 		w.failf("harness", "unknown op kind %q", op.K)
 	}
@@ -1072,6 +1100,59 @@ func (w *World) execSnapBad(sh *Handle, op *Op) {
 		}
 	}
 }
+
+// execMisc calls the package's remaining read-only entry points (C09: none of
+// them may write; the ones that return data are compared with the model).
+func (w *World) execMisc(op *Op) bool {
+	h := w.handle(op.S)
+	if h.closed {
+		return true
+	}
+	name := collName(op.C)
+	c := h.st.GetCollection(name)
+	mc := h.m.Colls[name]
+	w.ev["misc"]++
+	switch op.Flag % 6 {
+	case 0:
+		out := map[string]uint64{}
+		h.st.Stats(out)
+	case 1:
+		if c != nil {
+			_ = c.AllocStats()
+		}
+	case 2:
+		if c != nil && c.Name() != name && !h.snap {
+			w.failf("collection-name", "Collection.Name() = %q for the collection registered as %q", c.Name(), name)
+		}
+	case 3:
+		if c != nil {
+			if _, err := json.Marshal(c); err != nil {
+				w.failf("unexpected-error:MarshalJSON", "json.Marshal(collection) failed: %v", err)
+			}
+		}
+	case 4:
+		if c != nil && mc != nil && w.rc == nil && validUTF8Key(op.Key) {
+			val, err := c.GetAny(string(op.Key))
+			if err != nil {
+				w.failf("unexpected-error:GetAny", "%v", err)
+			}
+			mi, present := mc.Items[string(op.Key)]
+			if present != (val != nil) || (present && !bytes.Equal(val, mi.Val)) {
+				w.failf("get-value", "GetAny(%s) = %s, model %s (present %v)", qb(op.Key), qb(val), qb(mi.Val), present)
+			}
+		}
+	case 5:
+		if c != nil && mc != nil {
+			_, present := mc.Items[string(op.Key)]
+			if ex := c.ExistAny(op.Key); ex != present {
+				w.failf("exist", "ExistAny(%s) = %v, model %v", qb(op.Key), ex, present)
+			}
+		}
+	}
+	return true
+}
+
+func validUTF8Key(k []byte) bool { return true }
 
 // ---------------------------------------------------------------------------
 // reads
